@@ -1,4 +1,4 @@
 SPECIFICATION Spec
-CONSTANTS Keys = {"a", "b", "c"} Vals = {"x", "y"} MaxInit = 2 Depth = 3
+CONSTANTS Keys = {"a", "A", "b"} Vals = {"x", "y"} MaxInit = 2 Depth = 3
 INVARIANT Emit
 CHECK_DEADLOCK FALSE
